@@ -2,7 +2,7 @@
    Only statements, each closed by [exact] of a lemma proved under Proofs/, with
    Print Assumptions beneath.  Real-number instance of the model. *)
 From Coq Require Import List Reals.
-Require Import BT.Num BT.Base BT.Records BT.Engine BT.Proofs.SecInv BT.Proofs.TreeInv.
+Require Import BT.Num BT.Base BT.Records BT.Engine BT.Ops BT.Proofs.SecInv BT.Proofs.TreeInv BT.Proofs.WFProofs.
 Local Open Scope R_scope.
 
 (* Whenever StrategyBase.update (SecurityBase.update at the leaves) returns on a well-formed
@@ -17,3 +17,24 @@ Theorem C01_update_establishes_balance_sheet :
     node_update paper_step date inow n = Ok n' -> WF n -> BS n' /\ WF n'.
 Proof. exact node_update_BS. Qed.
 Print Assumptions C01_update_establishes_balance_sheet.
+
+(* Well-formedness is not an assumption about reachable states: construction establishes it and every operation
+   (update, adjust, allocate, transact, rebalance, close, flatten, property reads; lazily created children included)
+   preserves it. *)
+Theorem C01_every_operation_preserves_well_formedness :
+  forall (A : Type) (paper_step : option nat -> tree RNumI A -> result (tree RNumI A))
+         (o : op RNumI) (tr tr' : tree RNumI A) c,
+    apply_op paper_step o tr = Ok (tr', c) -> WF (fst tr) -> WF (fst tr').
+Proof. exact apply_op_WF. Qed.
+Print Assumptions C01_every_operation_preserves_well_formedness.
+
+(* Hence, for EVERY reachable state — any declaration tree, any data, any finite sequence of operations — an update
+   that leaves the tree fresh establishes the balance sheet at every node.  (The only update that leaves the tree
+   stale is the one on which a root goes bankrupt while every position is already flat.) *)
+Theorem C01_balance_sheet_at_every_reachable_state :
+  forall (A : Type) (paper_step : option nat -> tree RNumI A -> result (tree RNumI A))
+         d ip comm (sp : nspec RNumI A) (ops : list (op RNumI)) tr0 tr date tr',
+    build d ip comm sp = Ok tr0 -> run_ops A paper_step ops tr0 = Ok tr ->
+    root_update paper_step date tr = Ok tr' -> snd tr' = false -> BS (fst tr') /\ WF (fst tr').
+Proof. exact reachable_update_BS. Qed.
+Print Assumptions C01_balance_sheet_at_every_reachable_state.
